@@ -1,0 +1,13 @@
+//go:build verif
+
+package wire
+
+// VerifPutStreamFrame, when set, observes every release of a STREAM frame buffer
+// (StreamFrame.PutBack), pooled or not. Only compiled with the "verif" build tag.
+var VerifPutStreamFrame func(*StreamFrame)
+
+func verifPutStreamFrame(f *StreamFrame) {
+	if VerifPutStreamFrame != nil {
+		VerifPutStreamFrame(f)
+	}
+}
